@@ -112,11 +112,28 @@ def _decoys(header: str, lines: list[str], mode: int) -> dict[str, list[str]]:
                 body += [f"{t} = S 2 {ticks[-1] - t + 1}", f"{t} = E solo"]
         return body + [f"{ticks[-1]} = E soloend"]
 
+    def near_copy():
+        # the target's own body with the MIDDLE star-power lines one tick longer (same number of phrases, same
+        # first and last phrase, same notes): a sibling that looks like the target to anything that compares
+        # sections by their size and their ends
+        sp = [i for i, ln in enumerate(lines) if " = S 2 " in ln]
+        if len(sp) < 3:
+            return None
+        body = list(lines)
+        for i in sp[1:-1]:
+            head, ln = body[i].rsplit(" ", 1)
+            body[i] = f"{head} {int(ln) + 1}" if ln.isdigit() else body[i]
+        return body
+
     # every third time one neighbour is the same instrument at another difficulty (Expert when possible)
     dtxt = next(d for _, d in S.DIFFICULTIES if header.startswith(d))
     sibling = ("Expert" if dtxt != "Expert" else "Hard") + header[len(dtxt):]
     out = {}
-    if mode & 1:
+    nc = near_copy()
+    if nc is not None and k % 2 == 0:
+        # (in front of the target, so that the target is the later of the two)
+        out[sibling] = nc
+    elif mode & 1:
         if k % 3 == 0:
             out[sibling] = rich()
         else:
